@@ -115,7 +115,28 @@ func c18Run(c core.Case, env *core.Env) core.Result {
 	switch c.Kind {
 	case "derive":
 		rg := rng(env.Seed, c.ID)
+		// every key object the library hands out (and every parent handed in) is kept and looked at again after later
+		// derivations from other parents: a result is the caller's and must stay what it was
+		type keptKey struct {
+			what string
+			lib  *ckd.ExtendedKey
+			want *ref.XPub
+		}
+		var kept []keptKey
+		recheck := func(upto string) {
+			for _, kk := range kept {
+				before := r.Verdict
+				sameXKey(&r, kk.what+" (looked at again after "+upto+")", kk.lib, kk.want)
+				if before != core.Violated && r.Verdict == core.Violated {
+					r.Sig = "ckd:kept-key-changed:" + strings.TrimPrefix(r.Sig, "ckd:")
+				}
+				r.Count("kept_keys_rechecked", 1)
+			}
+		}
 		for k := 0; k < c.P.Int("n"); k++ {
+			if k%25 == 24 {
+				recheck(fmt.Sprintf("%d more derivations", 25))
+			}
 			sk := randBig(rg, ref.SecpN)
 			if sk.Sign() == 0 {
 				continue
@@ -187,7 +208,15 @@ func c18Run(c core.Case, env *core.Env) core.Result {
 				continue
 			}
 			what := fmt.Sprintf("path %v from depth %d", path, depth)
+			if il == nil || child == nil {
+				r.Fail("ckd:nil-result", "%s: derivation reports success but returns a nil offset or key (offset nil: %v)", what, il == nil)
+				continue
+			}
 			sameXKey(&r, what, child, cur)
+			kept = append(kept, keptKey{what, child, cur}, keptKey{"parent of " + what, par, refXKey(par)})
+			if len(kept) > 400 {
+				kept = kept[len(kept)-400:]
+			}
 			if il.Cmp(acc) != 0 {
 				r.Fail("ckd:offset", "%s: returned offset is not the sum of the per-level offsets mod q", what)
 			}
@@ -202,6 +231,7 @@ func c18Run(c core.Case, env *core.Env) core.Result {
 				r.Fail("ckd:parse-own-string", "library cannot parse its own serialisation: %v", err)
 			} else {
 				sameXKey(&r, what+" (re-parsed)", back, cur)
+				kept = append(kept, keptKey{what + " (re-parsed)", back, cur})
 			}
 			// single step API
 			if plen == 1 {
@@ -268,6 +298,7 @@ func c18Run(c core.Case, env *core.Env) core.Result {
 				}
 			}
 		}
+		recheck("the whole batch")
 		r.NonTrivial = r.Obs["derivations_compared"] > 0
 		r.Sample = map[string]any{"case": c.ID, "derivations": r.Obs["derivations_compared"]}
 	case "vectors":
